@@ -63,6 +63,7 @@ def _sum_check(v, total, parts, bucket, what):
     for p in parts:
         if any(run.maxabs(t) > 0 for t in p.values()):
             nz_parts += 1
+    floor = run.noise_floor(total, *parts)
     for k, t in total.items():
         acc = np.zeros_like(t)
         s = run.maxabs(t)
@@ -71,8 +72,8 @@ def _sum_check(v, total, parts, bucket, what):
                 acc = acc + p[k]
                 s = max(s, run.maxabs(p[k]))
         d = run.maxabs(t - acc)
-        v.metric(bucket.split(":")[1], d / (RTOL * s + 1e-300))
-        if not d <= RTOL * s + 1e-300:
+        v.metric(bucket.split(":")[1], d / (RTOL * s + floor))
+        if not d <= RTOL * s + floor:
             v.fail(bucket, f"{what}: |total-sum|={d:.3e} scale {s:.3e} at key {k}")
     for p in parts:
         extra = set(p) - set(total)
